@@ -135,6 +135,7 @@ type Stats struct {
 	MaxThr   int32
 	Verified int64 // executions re-run and compared (determinism self-check)
 	Horizon  int64
+	Pruned   int64 // alternatives not explored because they exceed the preemption/deviation bound
 	Finger   map[uint64]struct{}
 }
 
@@ -153,6 +154,7 @@ func (s *Stats) Add(o *Stats) {
 	}
 	s.Verified += o.Verified
 	s.Horizon += o.Horizon
+	s.Pruned += o.Pruned
 	if s.Finger == nil {
 		s.Finger = map[uint64]struct{}{}
 	}
